@@ -79,6 +79,38 @@ check('C17', 'model_checking',
       'code data',
       'tlc-data')
 
+check('C03', 'model_checking',
+      'PauliMC.tla: TLC checks bilinearity, symmetry, alternation and '
+      'inverse encodings for all operators on 3 qubits (and the group '
+      'theorems on hard-wired codes).  C03_Data.tla: every ordered pair of '
+      'operators on n <= 3 qubits through bs_prod in every representation '
+      'pair (list / ndarray of 7 dtypes, 1-D and 2-D / csr), stacks, random '
+      'stacks to n = 600 incl. overlaps > 255, every conversion of every '
+      'operator, brank and the bsparse helpers; TLC recomputes each result.',
+      'DESIGN.md 4/C03',
+      'Trusted: TLC; the harness builds Pauli strings from operator letters.',
+      'TLA+ algebra model (PauliMC.tla) + TLC validation of recorded call '
+      'results (one record per model state / input)',
+      'tlc-data')
+
+check('C08', 'model_checking',
+      'C08_Data.tla: for every deformed (class,size,name,axis) TLC checks '
+      'the per-qubit relabelling is a fixed permutation with the named '
+      'semantics (XZZX: Hadamard exactly on axis qubits; XY: Y<->Z), every '
+      'stabilizer and logical is the image of the undeformed one, n/k/d and '
+      'commutation preserved, syndrome/effect equivalence on probes, and the '
+      'deformed noise tables are relabelled by the same D.  CodeLifecycle.tla: '
+      'the deform()/lazy-cache life-cycle is explored exhaustively (327k '
+      'states) with two negative controls; TLC-generated behaviours are '
+      'replayed on real objects and the event logs validated by '
+      'CodeLifecycle_Trace.tla.',
+      'DESIGN.md 4/C08',
+      'Trusted: TLC; fresh objects deformed once are the life-cycle '
+      'reference (their own correctness is the data-driven part).',
+      'TLA+ life-cycle state machine model-checked + spec->code replay of '
+      'TLC behaviours + code->spec trace validation; data-driven image check',
+      'tlc-data')
+
 
 def build():
     checks = []
